@@ -381,14 +381,13 @@ theorem C09_datadir_in_header (f : Fmt) (k : Kind) (img : Img) (v : View) (hv : 
   · cases h
 
 /-- **No panic, no unchecked out-of-bounds or misaligned access, no divergence, for any image bytes**:
-every operation of the module returns a value or one of the library's errors (buffers < 4 GiB: the
-`rva + 2` of `import_from_va` cannot overflow after the hint was read, `hint_ok_bound`). -/
-theorem C09_total (v : View) (hsz : v.img.bytes.size < 4294967296) :
+the directory, the IAT and every per-descriptor table lookup return a value or one of the library's
+errors — for every `View`, without any bound. -/
+theorem C09_total (v : View) :
     OkOrErr (tryFrom v) ∧ OkOrErr (iatTryFrom v) ∧
     (∀ d, OkOrErr (dllName v d) ∧ OkOrErr (iatSlice v d) ∧ OkOrErr (intSlice v d) ∧
-      OkOrErr (iat v d) ∧ OkOrErr (int v d)) ∧
-    (∀ va, OkOrErr (importFromVa v va)) := by
-  refine ⟨?_, ?_, ?_, ?_⟩
+      OkOrErr (iat v d) ∧ OkOrErr (int v d)) := by
+  refine ⟨?_, ?_, ?_⟩
   · rw [tryFrom_eq_spec]; exact specTryFrom_okOrErr v
   · rw [iat_eq_spec]; exact specIat_okOrErr v
   · intro d
@@ -398,8 +397,29 @@ theorem C09_total (v : View) (hsz : v.img.bytes.size < 4294967296) :
     · unfold dllName; rw [cstr_eq_spec]; exact specCStr_okOrErr v _
     · unfold iat; exact okOrErr_bind h1 (fun _ _ => .inl ⟨_, rfl⟩)
     · unfold int; exact okOrErr_bind h2 (fun _ _ => .inl ⟨_, rfl⟩)
-  · intro va
-    rw [import_eq_spec v hsz]; exact specImport_okOrErr v va
+
+/-- … and so does the decoding of every thunk value (the items of `int`, the entries of the IAT),
+for buffers shorter than 4 GiB (the global model bound): then the `rva + 2` of `import_from_va`
+cannot overflow once the hint has been read (`hint_ok_bound`). -/
+theorem C09_total_decode (v : View) (hsz : v.img.bytes.size < 4294967296) (va : Nat) :
+    OkOrErr (importFromVa v va) := by
+  rw [import_eq_spec v hsz]; exact specImport_okOrErr v va
+
+/-- The bound is needed: over a mapped PE32+ image of 4 GiB or more the by-name thunk `0xFFFFFFFE`
+reads its hint successfully and then `rva + 2` overflows `u32` — a panic of the checked build
+(outside the model's global "buffers < 4 GiB" assumption; recorded for the report). -/
+theorem C09_rva_plus_2_needs_bound (v : View) (hk : v.kind = .view) (hf : v.fmt = .pe64)
+    (hsz : 4294967296 ≤ v.img.bytes.size) (hal : v.img.base % 2 = 0) :
+    importFromVa v 0xFFFFFFFE = .panic "import_from_va:rva+2" := by
+  have hat : v.at (.rva (0xFFFFFFFE % 4294967296)) 2 2 =
+      .ok ⟨0xFFFFFFFE, v.img.bytes.size - 0xFFFFFFFE, 2⟩ :=
+    (C05_view_slice_iff v hk _ 2 2 _).2 ⟨by decide, by decide, by omega, by omega, by omega, rfl⟩
+  unfold importFromVa
+  rw [hf, if_pos (by decide)]
+  unfold View.derva
+  dsimp only
+  rw [hat]
+  rfl
 
 /-- the loops terminate with the fuel the model gives them (never `diverge`), stated on the scans -/
 theorem C09_scans_terminate (v : View) (d : Ref) :
